@@ -43,7 +43,7 @@ Definition dict_update (d u : dict) : dict :=
 Fixpoint le_bytes (n : nat) (v : Z) : bytes :=
   match n with
   | O => []
-  | S n' => (v mod 256) :: le_bytes n' (v / 256)
+  | S n' => Z.land v 255 :: le_bytes n' (Z.shiftr v 8)       (* v mod 256, then v / 256 (two's complement) *)
   end.
 
 Fixpoint le_value (b : bytes) : Z :=
@@ -54,8 +54,8 @@ Fixpoint le_value (b : bytes) : Z :=
 
 (* the range struct.pack accepts for an integer code of w bytes *)
 Definition in_range (signed : bool) (w : nat) (v : Z) : bool :=
-  if signed then (- 2 ^ (8 * Z.of_nat w - 1) <=? v) && (v <? 2 ^ (8 * Z.of_nat w - 1))
-  else (0 <=? v) && (v <? 2 ^ (8 * Z.of_nat w)).
+  if signed then (- Z.shiftl 1 (8 * Z.of_nat w - 1) <=? v) && (v <? Z.shiftl 1 (8 * Z.of_nat w - 1))
+  else (0 <=? v) && (v <? Z.shiftl 1 (8 * Z.of_nat w)).
 
 (* ------------------------------------------------------------------ struct format strings *)
 Inductive endian := Little | Big.
